@@ -129,7 +129,7 @@ def pattern_from_host(rng, host: onnx.ModelProto):
 
 
 def gen_rule(rng, idx: int, with_funcs: bool, allow_clash: bool, host=None) -> dict:
-    fam = rng.choice(["reemit", "reemit", "swap", "invol", "mulone", "asfn", "keep", "two", "multi"])
+    fam = rng.choice(["reemit", "reemit", "swap", "invol", "mulone", "asfn", "keep", "two", "multi", "passthru"])
     name = f"r{idx}"
     spec = dict(name=name, remove=True, asfn=False, guard=True, inits=[], unique=False, family=fam)
     if fam == "invol":
@@ -143,6 +143,12 @@ def gen_rule(rng, idx: int, with_funcs: bool, allow_clash: bool, host=None) -> d
             spec["name"], spec["guard"] = "", False
         if rng.random() < 0.25:
             spec["remove"] = False
+        return spec
+    if fam == "passthru":
+        # the replacement returns its input (a graph input goes through Identity since e8a0767)
+        op1 = "Neg"
+        spec.update(pnodes=[(op1, "", [("v", 0)], 1, []), (op1, "", [("n", 0, 0)], 1, [])], root=1, pouts=[("n", 1, 0)],
+                    tnodes=[], touts=[("v", 0)], guard=False)
         return spec
     if fam == "multi":
         # pattern with two output nodes (the matcher tries every same-op candidate for the second one), re-emitted
@@ -235,8 +241,6 @@ def pred_asfn_in_body(case) -> bool:
 
 PREDICATES = {
     "C07-D2": lambda c, m: pred_selfmatch(c),
-    "C07-D3": lambda c, m: pred_multi_output_nodes(c),
-    "C07-D4": lambda c, m: pred_passthru(c),
 }
 
 # --------------------------------------------------------------------------- one case
@@ -249,6 +253,9 @@ def make_case(rng, size_hi: int, allow_clash: bool) -> dict:
     extra = (["one"] + (["one_1", "one_2"] if rng.random() < 0.5 else [])) if rng.random() < 0.12 else []
     host, hist = L.gen_host(rng, rng.randint(2, size_hi), with_funcs, with_cond, extra)
     rules = [gen_rule(rng, i + 1, with_funcs, allow_clash, host) for i in range(nrules)]
+    for i, sp in enumerate(rules):
+        if sp["family"] == "passthru" and with_cond:  # in a body the returned value may be an outer one: not rendered by the model
+            rules[i] = dict(sp, family="invol", tnodes=[("Identity", "", None, [("v", 0)], 1, [])], touts=[("n", 0, 0)])
     return {"rules": rules, "host": host.SerializeToString().hex(), "with_cond": with_cond, "with_funcs": with_funcs, "hist": hist}
 
 
@@ -288,6 +295,8 @@ def judge_real(case, host, out: onnx.ModelProto, count, rng, do_ort: bool, stats
     rule_ops = set()
     for s in case["rules"]:
         rule_ops |= {(p[1], p[0]) for p in s["pnodes"]} | {(t[1], t[0]) for t in s["tnodes"]}
+        if any(r is not None and r[0] == "v" for r in s["touts"]):
+            rule_ops.add(("", "Identity"))  # e8a0767/1dc987d: a returned graph input/output goes through a new Identity node
     if count is not None and all(s["remove"] for s in case["rules"]):  # rewrite() also removes the host's own dead code
         a, b = L.node_multiset(host, rule_ops), L.node_multiset(out, rule_ops)
         if a != b:
@@ -380,7 +389,7 @@ def corpus() -> list[dict]:
                 pouts=[("n", 0, 0)], tnodes=[("Add", "", None, [("v", 1), ("v", 0)], 1, [])], touts=[("n", 0, 0)])],
                 "host": host([N("Add", ["x", "y"], ["z"])], ["x", "y"], ["z"])})
     # C07-D4: replacement returns its input: the graph input is renamed
-    out.append({"id": "C07-D4", "with_cond": False, "rules": [dict(base, name="r1", guard=False, family="passthru",
+    out.append({"regress": "C07-D4", "with_cond": False, "rules": [dict(base, name="r1", guard=False, family="passthru",
                 pnodes=[("Neg", "", [("v", 0)], 1, []), ("Neg", "", [("n", 0, 0)], 1, [])], root=1, pouts=[("n", 1, 0)], tnodes=[], touts=[("v", 0)])],
                 "host": host([N("Neg", ["x"], ["n"]), N("Neg", ["n"], ["m"]), N("Add", ["m", "x"], ["z"])], ["x"], ["z"])})
     # directed (no finding): an as_function rule that fires only inside a function body and brings a new domain —
@@ -390,6 +399,10 @@ def corpus() -> list[dict]:
     out.append({"with_cond": False, "rules": [dict(base, name="r1", family="asfn", asfn=True, pnodes=[("Relu", "", [("v", 0)], 1, [])], root=0,
                 pouts=[("n", 0, 0)], tnodes=[("NR", "local2", None, [("v", 0)], 1, [])], touts=[("n", 0, 0)])],
                 "host": host([N("f", ["x"], ["r"], domain="local"), N("Abs", ["r"], ["z"])], ["x"], ["z"], funcs=[fproto], local=True)})
+    # regression of C07-D10 (fixed 1dc987d): the replacement returns a value that is a graph output
+    out.append({"regress": "C07-D10", "with_cond": False, "rules": [dict(base, name="r1", guard=False, family="passthru",
+                pnodes=[("Neg", "", [("v", 0)], 1, []), ("Neg", "", [("n", 0, 0)], 1, [])], root=1, pouts=[("n", 1, 0)], tnodes=[], touts=[("v", 0)])],
+                "host": host([N("Abs", ["a"], ["x"]), N("Neg", ["x"], ["n"]), N("Neg", ["n"], ["m"]), N("Add", ["m", "x"], ["z"])], ["a"], ["z", "x"])})
     # directed (no finding): a match inside a model-local function that uses a domain (`aux`) the main graph does not
     # import; the extracted function must import it from the enclosing function's own imports
     hproto = helper.make_function("aux", "h", ["a"], ["b"], [N("Abs", ["a"], ["b"])], [helper.make_opsetid("", 18)])
@@ -421,7 +434,7 @@ def corpus() -> list[dict]:
                 "host": host([N("Add", ["x", "one"], ["p"]), N("Add", ["p", "one_3"], ["q"]),
                               N("Relu", ["q"], ["a"]), N("Neg", ["a"], ["b"]), N("Relu", ["b"], ["z"])], ["x"], ["z"], inits=i2)})
     # C07-D6: a pattern variable bound to an interior matched value: graph.remove(safe=True) raises
-    out.append({"id": "C07-D6", "with_cond": False, "rules": [dict(base, name="r1", family="reemit",
+    out.append({"regress": "C07-D6", "with_cond": False, "rules": [dict(base, name="r1", family="reemit",
                 pnodes=[("Abs", "", [("v", 1)], 1, []), ("Sub", "", [("v", 0), ("n", 0, 0)], 1, [])], root=1, pouts=[("n", 1, 0)],
                 tnodes=[("Abs", "", None, [("v", 1)], 1, []), ("Sub", "", None, [("v", 0), ("n", 0, 0)], 1, [])], touts=[("n", 1, 0)])],
                 "host": host([N("Abs", ["x"], ["a"]), N("Sub", ["a", "a"], ["z"])], ["x"], ["z"])})
@@ -470,8 +483,6 @@ def check_asfn_body_witness() -> str | None:
 
 
 def classify(case, host, what: str = "") -> str | None:
-    if "a removed value is still used by the replacement" in what:
-        return "C07-D6"
     if "Cannot rename initializer" in what:
         return "C07-D8"
     if "SSA across scopes" in what or "single static assignment" in what:
@@ -556,11 +567,8 @@ def main(run: core.Run) -> None:
     process(corpus(), do_ort_every=1)
     r = check_multi_output_witness()
     if r:
-        if "C07-D3" in findings:
-            run.known("C07-D3", "pattern with two output nodes: replacement inserted after the first one, a consumer of the second "
-                      "precedes it -> " + " ".join(r[:160].split()))
-        else:
-            prop_failures.append(({"witness": "multi-output-node"}, r))
+        # C07-D3 was fixed by a8da06e: a failure of the regression witness is a violation
+        prop_failures.append(({"witness": "multi-output-node (regression of C07-D3)"}, r))
     r = check_asfn_body_witness()
     if r:
         # C07-D5 was fixed by 35ad500: a failure of the regression witness is a violation
